@@ -41,7 +41,8 @@ def materialise(result):
 
 def outcome(result):
     try:
-        return ('ok', canon(materialise(result)), materialise(result))
+        m = materialise(result)
+        return ('ok', canon(m), m)
     except Exception as e:        # the same failure under every strategy is the same result
         return ('exc', type(e).__name__, repr(e)[:200])
 
@@ -389,25 +390,30 @@ def cache_histories(inp):
     lists = [list(t) for t in tabs]
     srcs = [Source(l) for l in lists]
     res = fn(srcs, cache=cache, buffersize=b)
+    views = list(res) if isinstance(res, tuple) else [res]          # diff / unjoin / recorddiff return two tables
     first = None
-    done = [False] * len(srcs)                 # the source was read to the end in an earlier pass of this view
+    # done[t][j]: result table t has read source j to the end in an earlier pass
+    done = [[False] * len(srcs) for _ in views]
     for p, e in enumerate((None,) + tuple(edits), 1):
         apply_edit(lists, e, kind)
-        for s in srcs:
-            s.opened = s.pulled = s.exhausted = 0
-        got = outcome(res)
         note = 'pass %d after edits %r' % (p, ((None,) + tuple(edits))[:p])
-        if cache and first is not None:
-            reread = [(j, s.opened, s.pulled) for j, s in enumerate(srcs) if done[j] and (s.opened or s.pulled)]
-            expect(not reread, '%s/cache-true-rereads-source' % name, 'no read from a source already read to the end',
-                   reread, note)
-            if all(done):                      # a source that was never read to the end may legitimately be read now
-                expect(got[:2] == first[:2], '%s/cache-true-replay-differs' % name, first[2], got[2], note)
-        else:
-            want = outcome(fn([list(l) for l in lists]))
+        got = []
+        for t, v in enumerate(views):
+            for s in srcs:
+                s.opened = s.pulled = s.exhausted = 0
+            got.append(outcome(v))
+            if cache and first is not None:
+                reread = [(t, j, s.opened, s.pulled) for j, s in enumerate(srcs) if done[t][j] and (s.opened or s.pulled)]
+                expect(not reread, '%s/cache-true-rereads-source' % name,
+                       'no read from a source this table has already read to the end', reread, note)
+                if all(done[t]):               # a source that was never read to the end may legitimately be read now
+                    expect(got[t][:2] == first[t][:2], '%s/cache-true-replay-differs' % name, first[t][2], got[t][2], note)
+            for j, s in enumerate(srcs):
+                done[t][j] = done[t][j] or s.exhausted > 0
+        if not (cache and first is not None):
+            ref = fn([list(l) for l in lists])
+            want = [outcome(w) for w in (ref if isinstance(ref, tuple) else (ref,))]
             sub = '%s/cache-false-stale' % name if not cache else '%s/first-pass' % name
-            expect(got[:2] == want[:2], sub, want[2], got[2], note)
+            expect([g[:2] for g in got] == [w[:2] for w in want], sub, [w[2] for w in want], [g[2] for g in got], note)
         if first is None:
             first = got
-        for j, s in enumerate(srcs):
-            done[j] = done[j] or s.exhausted > 0
